@@ -10,6 +10,10 @@ CHECKS = {
          "One socket is fed up to 200 generated segments placed around its advertised window by a scripted peer owning a fixed stream; a reference receiver built from the delivered segments and the windows read off the socket's own output checks: delivered bytes = stream prefix, no byte delivered that never arrived below the advertised edge, ACK never covers unreceived bytes/FIN, Finished only after all data, advertised edge within buffer. Exploration by random search with boundary-biased generators; no exhaustiveness claimed.",
          "Trusts vkit::indep TCP/IP codec; 'arrived in window' is a necessary condition only; peer never resets.",
          "DESIGN.md 3/C04"),
+ "C05": ("invariant-over-history PBT: scripted TCP peer, every emitted segment checked by independent decoder",
+         "The application writes a PRF stream and closes while a scripted peer delivers generated ACK/window schedules (stale, shrinking, zero, duplicate x3, silence until RTO) with drawn MSS/window-scale/timestamp options; each emitted segment is checked against the window and MSS delivered so far, the written bytes (also when retransmitted), contiguity, FIN placement and SYN/scaled window fields. Random exploration; 5 hand-made sender mutants are killed by the quick tier.",
+         "Trusts vkit::indep codec; peer segments restricted to those whose acceptability is unambiguous so that the learned window is known exactly; keep-alive disabled; MSS<48 clamp accepted as documented design.",
+         "DESIGN.md 3/C05"),
  "C14": ("model-based PBT (VecDeque model) + bounded-exhaustive op-sequence enumeration",
          "Random op sequences (<=200 ops, capacities 0..=4096) on RingBuffer and PacketBuffer compared with a VecDeque model after every operation, plus exhaustive enumeration of all op sequences up to depth 4 (quick) / 5 (thorough) over a small alphabet for small capacities. Exploration, not proof: exhaustive only inside the stated small sub-space.",
          "Trusts the VecDeque model and the stated preconditions of the asserted operations; contents of unallocated slots compared only when written through the unallocated interface.",
